@@ -103,6 +103,10 @@ def stress():
             out.append("fn main() { loop { %s %s } }" % (stmt, bad))
             out.append("fn main() { loop { %s%s; } }\nfn g() { }\n" % (stmt, bad))
             out.append("%s %s\nfn main() { }\n" % (stmt, bad))
+    # types that name each other twice per level: a chain of n definitions denotes a tree of 2^n nodes
+    for n in (8, 14, 28):
+        out.append("type T0 = { a: int, b: int };\n" + "".join("type T%d = { a: T%d, b: T%d };\n" % (i, i - 1, i - 1) for i in range(1, n + 1)) +
+                   "fn f(x: T%d) { x; }\nfn main() { }\n" % n)
     out.append("fn main() { let x = 9223372036854775808; }")
     out.append("fn main() { let x = 1" + "0" * 400 + ".5; }")
     return out
@@ -251,7 +255,8 @@ def run(args):
                     kind = "hang-or-memory" if "hang" in r else ("out-of-memory" if "out of memory" in st or "cannot allocate" in st else
                                                                  ("stack-exhausted" if "stack overflow" in st or "goroutine stack exceeds" in st else "panic"))
                     rep.fail({"family": label, "kind": kind, "panic": panic_class(st) if kind == "panic" else kind,
-                              "as_import": as_import}, {"input": s[:600], "len": len(s), "stderr": st[:1500]})
+                              "as_import": as_import, "shape": "type-dag" if s.startswith("type T0 = {") else "other"},
+                             {"input": s[:600], "len": len(s), "stderr": st[:1500]})
 
     for s in inputs:
         rep.nontrivial(s)
